@@ -1171,13 +1171,18 @@ class Scopes:
 # Boolean formulas (A11): a syntactic boolean expression as a function over its atoms
 # --------------------------------------------------------------------------------------------
 
-def bool_formula(e):
-    """-> (evaluate(valuation dict) -> bool, sorted atom texts). Atoms are the maximal sub-expressions that are not &&, ||, !."""
+def bool_formula(e, canon=None):
+    """-> (evaluate(valuation dict) -> bool, sorted atom texts). Atoms are the maximal sub-expressions that are not &&, ||, !,
+    if/else. `canon(text) -> (text, negated)` may map an atom onto (the negation of) another one, e.g. `xs.all(|b| !*b)` onto
+    not `xs.any(|b| *b)`."""
     atoms = set()
 
     def build(x):
         x = strip(x)
         k = x.get("k")
+        if k == "if" and x.get("else") is not None and x["c"].get("k") != "let":
+            c, t, f = build(x["c"]), build(tail_expr(x["then"]) or x["then"]), build(tail_expr(x["else"]) or x["else"])
+            return lambda v: t(v) if c(v) else f(v)
         if k == "binary" and x["op"] in ("&&", "||"):
             l, r = build(x["l"]), build(x["r"])
             if x["op"] == "&&":
@@ -1195,11 +1200,26 @@ def bool_formula(e):
             text = "(" + src(x["l"]).replace(" ", "") + "==" + src(x["r"]).replace(" ", "") + ")"
             atoms.add(text)
             return lambda v, t=text: not v[t]
+        if canon is not None:
+            text, neg = canon(text)
+            atoms.add(text)
+            if neg:
+                return lambda v, t=text: not v[t]
         atoms.add(text)
         return lambda v, t=text: v[t]
 
     f = build(e)
     return f, sorted(atoms)
+
+
+def equivalent(f, atoms, g):
+    """f (built by bool_formula over `atoms`) equals the python predicate g(valuation) on every valuation -> (ok, counter-example)"""
+    import itertools
+    for bits in itertools.product([False, True], repeat=len(atoms)):
+        v = dict(zip(atoms, bits))
+        if bool(f(v)) != bool(g(v)):
+            return False, v
+    return True, None
 
 
 def implies(f, atoms, required_true):
@@ -1368,7 +1388,7 @@ def _balanced(t):
     return d == 0
 
 
-def inline_lets(node):
+def inline_lets(node, typed=False):
     """copy of a syntax tree in which immutable single-identifier `let x = e;` bindings (no type-changing patterns, no `mut`,
     no `else`) are substituted into the later uses of `x` in the same block and the `let` statements dropped. Text-shaped rules
     apply it first, so that naming an intermediate value (`let width = token.width(); .. offset_pos(width)`) is not a change."""
@@ -1386,10 +1406,14 @@ def inline_lets(node):
             env2 = dict(env)
             out = []
             for st in n["stmts"]:
-                if st.get("k") == "local" and st.get("init") is not None and st.get("else") is None and st["pat"].get("k") == "pident" \
-                        and not st["pat"].get("mut") and not st["pat"].get("ref") and st["pat"].get("sub") is None:
+                pat_ = st.get("pat") if st.get("k") == "local" else None
+                if typed and pat_ is not None and pat_.get("k") == "ptype" and isinstance(pat_.get("p"), dict):
+                    pat_ = pat_["p"]     # `let x: T = e;` (on request only: annotated lets are mostly the named results rules look for)
+                if st.get("k") == "local" and st.get("init") is not None and st.get("else") is None and pat_.get("k") == "pident" \
+                        and not pat_.get("mut") and not pat_.get("ref") and pat_.get("sub") is None \
+                        and not (st["init"].get("k") == "ref" and st["init"].get("mut")):    # `let x = &mut T::new();` names an object, not a value
                     init = subst(st["init"], env2)
-                    name = st["pat"]["name"]
+                    name = pat_["name"]
                     # only pure-looking initialisers that are used at most twice later are inlined (a `?` may be duplicated textually;
                     # this is a rendering for comparison, not a program)
                     env2[name] = init
@@ -1561,10 +1585,21 @@ def fn_paths(body, limit=4000):
             scrut = _norm_cond(e["e"])
             for p in paths:
                 _events_of(e["e"], p.events)
-            for a in e["arms"]:
+            for ai, a in enumerate(e["arms"]):
+                pat_s = src(a["pat"]).replace(" ", "")
+                # an earlier guarded arm with an irrefutable (or the same) pattern was tried first: its guard failed
+                failed = []
+                for b_ in e["arms"][:ai]:
+                    if b_.get("guard") is None:
+                        continue
+                    bp = b_["pat"]
+                    if bp.get("k") in ("pwild", "pident") or src(bp).replace(" ", "") == pat_s:
+                        failed.append(_norm_cond(b_["guard"]))
                 for p in paths:
                     q = p.fork()
-                    q.conds.append((scrut + "~" + src(a["pat"]).replace(" ", ""), True))
+                    q.conds.append((scrut + "~" + pat_s, True))
+                    for g_ in failed:
+                        q.conds.append((g_, False))
                     if a.get("guard") is not None:
                         _events_of(a["guard"], q.events)
                         q.conds.append((_norm_cond(a["guard"]), True))
